@@ -5,6 +5,7 @@ CONSTANTS
   Nobody = Nobody
   Ids = {"i1"}
   MaxOps = 1
+  MaxOpsOf <- LimitsAll
   MaxVer = 1
   OpsOf <- RolesAll
   InitKinds = {"live", "dead"}
